@@ -1,0 +1,9 @@
+//go:build verif
+
+package forkchoice
+
+// VerifGraph returns the graph the fork choice was constructed with,
+// for conformance harnesses that observe the node table. Only with the verif build tag.
+func (fc *ProtoForkChoice) VerifGraph() ForkchoiceGraph {
+	return fc.protoArray
+}
